@@ -1,19 +1,70 @@
-(* C20 -- metrics.  Statements only.  PARTIAL: the pairing law is proved on an abstract container
-   (Model/Metrics.v); that every enqueue/dequeue path of retry.py / throttle.py and every future's
-   life is paired is decided by comparing the stand-in registry with reality on real stacks. *)
+(* C20 -- metrics.  Statements only.
+   Queue gauges (retry_queue, throttle_queue): Model/QGauge.v is in lockstep with the real executors
+   (harness/p_c20q.py: executor lock, every container mutation, every gauge update); the theorems below
+   turn its local pairing discipline into the global laws of the property.
+   PARTIAL for the other series: that every future's life is paired (future_inprogress, exec_inprogress)
+   and that the counters match events is decided by comparing the stand-in registry with reality on real
+   stacks (harness/p_c20.py); the abstract pairing law is Model/Metrics.v. *)
 From Coq Require Import List ZArith Bool Arith.
-From ME Require Import Base.Machine Model.Metrics.
+From ME Require Import Base.Machine Model.Metrics Model.QGauge Proofs.QGauge_Inv.
 Import ListNotations.
 
-Theorem c20_gauge_matches_container_partial : forall s, reachable_from step init s -> gauge s = Z.of_nat (length (queue s)).
-Proof. exact gauge_matches. Qed.
-Theorem c20_gauge_never_negative_partial : forall s, reachable_from step init s -> (0 <= gauge s)%Z.
+(* ---- queue gauges, machine in lockstep with retry.py / throttle.py --------------------------------- *)
+(* at quiescence -- indeed whenever the executor lock is free -- the gauge is the number of queued entries *)
+Theorem c20_queue_gauge_eq_at_rest : forall s i, QGauge_Inv.reachable s ->
+  QGauge.owner s i = None -> QGauge.gauge s i = Z.of_nat (length (QGauge.q s i)).
+Proof. exact gauge_eq_at_rest. Qed.
+(* never negative on the way, not even in the middle of a critical section *)
+Theorem c20_queue_gauge_never_negative : forall s i, QGauge_Inv.reachable s -> (0 <= QGauge.gauge s i)%Z.
 Proof. exact gauge_nonneg. Qed.
+(* inside a section it is off by at most one entry *)
+Theorem c20_queue_gauge_within_one : forall s i, QGauge_Inv.reachable s ->
+  (Z.abs (QGauge.gauge s i - Z.of_nat (length (QGauge.q s i))) <= 1)%Z.
+Proof. exact gauge_within_one. Qed.
+(* queue and gauge are only ever touched by the holder of the executor lock *)
+Theorem c20_queue_touched_only_by_holder : forall s e s' i, QGauge.step s e = Some s' ->
+  (QGauge.q s' i <> QGauge.q s i \/ QGauge.gauge s' i <> QGauge.gauge s i) ->
+  exists t, QGauge.owner s i = Some t /\ QGauge.owner s' i = Some t.
+Proof. exact touched_only_by_holder. Qed.
+(* a removal path without its decrement (retry._cancel and throttle._do_cancel before the repairs G7 / G7b)
+   leaves the gauge above reality at rest *)
+Theorem c20_queue_missing_dec_refuted :
+  exists s, reachable_from QGauge.step_nodec QGauge.init s /\ QGauge.owner s 0 = None /\ QGauge.q s 0 = [] /\ QGauge.gauge s 0 = 1%Z.
+Proof. exact QGauge_Inv.gauge_drift_without_dec_refuted. Qed.
+
+(* non-vacuity: an implementation history of p_c20q (two retry layers; submit, hand-over, retry, cancel) *)
+Definition c20_trace : list (list Z) :=
+  [[0; 0; 0]; [1; 0; 0]; [0; 1; 0]; [1; 1; 0]; [0; 0; 1]; [2; 0; 1; 0]; [4; 0; 1]; [1; 0; 1]; [0; 0; 0]; [3; 0; 0; 0]; [5; 0; 0]; [1; 0; 0];
+   [0; 0; 1]; [2; 0; 1; 1]; [4; 0; 1]; [1; 0; 1]; [0; 1; 0]; [2; 1; 0; 2]; [4; 1; 0]; [1; 1; 0]; [0; 1; 0]; [3; 1; 0; 2]; [5; 1; 0]; [1; 1; 0];
+   [0; 0; 0]; [1; 0; 0]; [0; 0; 0]; [3; 0; 0; 1]; [5; 0; 0]; [1; 0; 0]; [0; 1; 0]; [2; 1; 0; 3]; [4; 1; 0]; [1; 1; 0]; [0; 1; 0]; [3; 1; 0; 3];
+   [5; 1; 0]; [1; 1; 0]; [0; 0; 0]; [1; 0; 0]; [0; 0; 1]; [2; 0; 1; 4]; [4; 0; 1]]%Z.
+Example c20_trace_accepted : QGauge.accept c20_trace = [-1]%Z.
+Proof. vm_compute. reflexivity. Qed.
+Example c20_queue_nonvacuous :
+  exists s, QGauge_Inv.reachable s /\ QGauge.owner s 0 = Some 1 /\ QGauge.q s 0 = [4] /\ QGauge.gauge s 0 = 1%Z /\ QGauge.q s 1 = [].
+Proof.
+  destruct (QGauge.decode_all c20_trace) as [es|] eqn:E; [|discriminate].
+  destruct (run QGauge.step QGauge.init es) as [s|] eqn:R; [|vm_compute in E; inversion E; subst; vm_compute in R; discriminate].
+  exists s. split; [exists es; exact R|].
+  vm_compute in E. inversion E; subst. vm_compute in R. inversion R; subst. repeat split; reflexivity.
+Qed.
+
+(* ---- the abstract pairing law (every series that pairs inc with dec) ---------------------------------- *)
+Theorem c20_gauge_matches_container_partial : forall s, reachable_from Metrics.step Metrics.init s -> Metrics.gauge s = Z.of_nat (length (Metrics.queue s)).
+Proof. exact gauge_matches. Qed.
+Theorem c20_gauge_never_negative_partial : forall s, reachable_from Metrics.step Metrics.init s -> (0 <= Metrics.gauge s)%Z.
+Proof. exact Metrics.gauge_nonneg. Qed.
 (* the cancel-while-queued path without a decrement (retry._cancel and throttle._do_cancel before
    their repair) leaves the gauge above reality *)
-Theorem c20_missing_dec_refuted : exists s, reachable_from (step_gen false) init s /\ queue s = [] /\ gauge s = 1%Z.
-Proof. exact gauge_drift_without_dec_refuted. Qed.
+Theorem c20_missing_dec_refuted : exists s, reachable_from (step_gen false) Metrics.init s /\ Metrics.queue s = [] /\ Metrics.gauge s = 1%Z.
+Proof. exact Metrics.gauge_drift_without_dec_refuted. Qed.
 
+Print Assumptions c20_queue_gauge_eq_at_rest.
+Print Assumptions c20_queue_gauge_never_negative.
+Print Assumptions c20_queue_gauge_within_one.
+Print Assumptions c20_queue_touched_only_by_holder.
+Print Assumptions c20_queue_missing_dec_refuted.
+Print Assumptions c20_queue_nonvacuous.
 Print Assumptions c20_gauge_matches_container_partial.
 Print Assumptions c20_gauge_never_negative_partial.
 Print Assumptions c20_missing_dec_refuted.
